@@ -125,6 +125,14 @@ class Tree(object):
         elif shape == "T1lazy":
             root = bt.Strategy("r", [], ["a", "b"])
             cols = ["a", "b"]
+        elif shape == "T2" and spec.get("build") == "top_down":
+            # the same tree assembled from the top: sub-strategies attached with parent=, and ONE lazily
+            # added security object for 'a' handed to both of them
+            shared = bt.Security("a", multiplier=m.get("a", 1), lazy_add=True)
+            root = bt.Strategy("r", [], [S("b")])
+            bt.Strategy("s1", [], [shared, S("b")], parent=root)
+            bt.Strategy("s2", [], [shared], parent=root)
+            cols = ["a", "b"]
         elif shape == "T2":
             s1 = bt.Strategy("s1", [], [S("a"), S("b")])
             s2 = bt.Strategy("s2", [], [S("a")])
